@@ -350,6 +350,8 @@ def check_log_types(c, repo):
             if good:
                 c.ok(f, k, 'logged value is %s' % ('decoder output' if 'text' in labs else 'the coerced send string'), kind='flow', tag='type:' + norm(k)[:40])
             else:
+                if 'chunk-decoded' in labs and decoder_state_guarded(f):
+                    raise AnalysisError('%s: the logged text is decoded per chunk on a path guarded by a test of the decoder\'s own state (getstate()): cannot be decided' % f.qual)
                 what = 'raw bytes (not decoded): in unicode mode the log receives bytes while the API delivers text' if 'raw' in labs else \
                     ('an exception object, not text: logfile.write(e) raises TypeError and kills the reader thread before the end-of-stream '
                      'sentinel is queued' if 'exc' in labs else 'a value of unknown type %s' % sorted(labs))
